@@ -8,7 +8,7 @@ EXPLANATION = ('(R04.1) in every digit-accumulation of the integer readers (dec_
                '(R04.2) the signed wrappers compare with exactly 2^(w-1) (negative) and MAX (positive) before negating/casting; (R04.3) in the '
                'JSON parser an integer event is emitted only under success of dec_to_integer, overflow goes to a bigint-tagged string under '
                'lossless_bignum_, fractions to bigdec under lossless_number_; (R05.1) number formatting bounds (shared with C05).')
-NOT_DECIDED = ('correct rounding of from_chars/strtod, Grisu3, all basic_bigint arithmetic - numerical, no sound static argument in reach '
+NOT_DECIDED = ('correct rounding of from_chars/strtod, Grisu3 digit generation and its cached powers (only the boundary definition is decided, R04.10), all basic_bigint arithmetic - numerical, no sound static argument in reach '
                '(goto-analyzer cannot parse this C++)')
 
 def type_max(tn):
